@@ -8,7 +8,7 @@ from typing import List, Any
 
 from lemoncheesecake.helpers.orderedset import OrderedSet
 from lemoncheesecake.helpers.text import jsonify
-from lemoncheesecake.matching.matcher import Matcher, MatchResult, MatcherDescriptionTransformer
+from lemoncheesecake.matching.matcher import Matcher, MatchResult, MatcherDescriptionTransformer, MatcherWrapper
 
 
 def _make_item(content, prefix="- "):
@@ -36,8 +36,19 @@ def _build_multi_line_description(matchers, transformation, relationship):
     )
 
 
+def _is_composite(matcher):
+    # a negated composite, or a composite behind a wrapper that keeps its description, is still worded as a composite
+    while True:
+        if isinstance(matcher, Not):
+            matcher = matcher.matcher
+        elif isinstance(matcher, MatcherWrapper) and matcher.description is NotImplemented:
+            matcher = matcher.matcher
+        else:
+            return isinstance(matcher, (AllOf, AnyOf))
+
+
 def _build_single_line_description_if_suitable(matchers, transformation, relationship):
-    if any(isinstance(matcher, (AllOf, AnyOf)) for matcher in matchers):
+    if any(_is_composite(matcher) for matcher in matchers):
         # in case of "composite of composite", the multi-line rendering must be used in order to keep the logic
         return None
 
